@@ -250,7 +250,7 @@ def struct_field_types(structs, name):
             return d
     raise TranslateError('struct %s not found' % name)
 
-def translate(repo='/repo'):
+def translate(repo='/repo', lenient_conv=False):
     p1 = os.path.join(repo, 'src/abi/fuse_abi_linux.rs')
     p2 = os.path.join(repo, 'src/abi/virtio_fs.rs')
     s1 = cut_tests(strip_comments(open(p1).read()))
@@ -263,14 +263,22 @@ def translate(repo='/repo'):
     attr_t = struct_field_types(structs, 'Attr')
     kst_t = struct_field_types(structs, 'Kstatfs')
     set_t = struct_field_types(structs, 'SetattrIn')
-    conv = {
-        'attr_of_stat': parse_conv_literal(fn_body(s1, r'pub\s+fn\s+with_flags\s*\('), 'Attr', 'st', attr_t, STAT64),
-        'stat_of_attr': parse_conv_assign(fn_body(s1, r'impl\s+From<Attr>\s+for\s+stat64\s*\{\s*fn\s+from'), 'out', 'attr', STAT64, attr_t),
-        'kstatfs_of_statvfs': parse_conv_literal(fn_body(s1, r'impl\s+From<statvfs64>\s+for\s+Kstatfs\s*\{\s*fn\s+from'), 'Kstatfs', 'st', kst_t, STATVFS64),
-        'stat_of_setattr': parse_conv_assign(fn_body(s1, r'impl\s+From<SetattrIn>\s+for\s+stat64\s*\{\s*fn\s+from'), 'out', 'setattr', STAT64, set_t),
-    }
+    conv_specs = [
+        ('attr_of_stat', lambda: parse_conv_literal(fn_body(s1, r'pub\s+fn\s+with_flags\s*\('), 'Attr', 'st', attr_t, STAT64)),
+        ('stat_of_attr', lambda: parse_conv_assign(fn_body(s1, r'impl\s+From<Attr>\s+for\s+stat64\s*\{\s*fn\s+from'), 'out', 'attr', STAT64, attr_t)),
+        ('kstatfs_of_statvfs', lambda: parse_conv_literal(fn_body(s1, r'impl\s+From<statvfs64>\s+for\s+Kstatfs\s*\{\s*fn\s+from'), 'Kstatfs', 'st', kst_t, STATVFS64)),
+        ('stat_of_setattr', lambda: parse_conv_assign(fn_body(s1, r'impl\s+From<SetattrIn>\s+for\s+stat64\s*\{\s*fn\s+from'), 'out', 'setattr', STAT64, set_t)),
+    ]
+    conv = {}; conv_errors = {}
+    for cname, thunk in conv_specs:
+        try: conv[cname] = thunk()
+        except TranslateError as ex:
+            # lenient mode (used only to search for a concrete failing input after the strict translation failed):
+            # everything else is still translated so that the probes on the real conversions can run
+            if not lenient_conv: raise
+            conv_errors[cname] = str(ex)
     return {'structs': structs, 'consts': consts, 'bitflags': bitflags, 'enums': enums,
-            'opcode_from': {'arms': arms, 'default': default}, 'conv': conv}
+            'opcode_from': {'arms': arms, 'default': default}, 'conv': conv, 'conv_errors': conv_errors}
 
 # ---------------------------------------------------------------- Coq emission
 def coq_str(s): return '"%s"' % s
